@@ -205,7 +205,11 @@ func (mv mapValue) PropertyValue(iv Value) Value {
 	if !ir.IsValid() {
 		return nilValue
 	}
-	er := mr.MapIndex(ir)
+	var er reflect.Value
+	// a property name can only be a key of a map whose key type can hold it (string, interface{}, …)
+	if ir.Type().AssignableTo(mr.Type().Key()) {
+		er = mr.MapIndex(ir)
+	}
 	switch {
 	case er.IsValid():
 		return ValueOf(er.Interface())
